@@ -199,7 +199,8 @@ class Dim:
                     if (k, e.attr) in s.eng.CLASS_CONST: return num(s.eng.CLASS_CONST[(k, e.attr)])
             if base[0] == "pt" and e.attr in ("_x", "_y"): return num(base[1])
             if e.attr in ("lowpt", "toppt"): return ("pt", 1)
-            if e.attr in ("degree", "npts", "numerator", "denominator"): return num(0)
+            if e.attr == "numerator" and base[0] == "num": return base      # n of q = n/d carries q's dimension ...
+            if e.attr in ("degree", "npts", "numerator", "denominator"): return num(0)     # ... d is a pure number
             if e.attr == "ctrlpoints": return ("ptseq", base[1] if base[0] == "curve" else 1)
             if e.attr == "vertices": return ("ptseq", 1)
             if e.attr == "segments": return ("curveseq", 1)
